@@ -38,6 +38,7 @@ structure Dgram where
 /-- Error classes the trace distinguishes. -/
 inductive Errc where
   | nil | eof | inval | msgsize | notsock | addrinuse | addrnotavail | other
+  | refused    -- an error made by the library itself (no errno behind it): the call was not handed to the kernel
   deriving DecidableEq, Repr, Inhabited
 
 /-! ## Source filters (RFC 3376 style) -/
@@ -239,7 +240,9 @@ def step (st : S) : Ev → Except String S
       | none => .error "unknown-socket"
       | some tx =>
         if err != .nil then
-          if arrived.isEmpty then .ok st else .error "write-failed-but-delivered"
+          -- "each write emits exactly one datagram": a refusal by the library itself means the kernel was never asked
+          if err == .refused then .error "write-not-emitted"
+          else if arrived.isEmpty then .ok st else .error "write-failed-but-delivered"
         else if n != data.length then .error "write-length"
         else
           let d : Dgram := { src := src, dst := dst, data := data }
